@@ -62,6 +62,7 @@ def type_of(kind):
     if kind not in _TYPES:
         def ctor(*a, nodes=None, rule_name="", root=False, _k=kind, **kw):
             if a and isinstance(a[0], str) and nodes is None: kw.setdefault("to_match", a[0]); a = a[1:]
+            if a and isinstance(a[0], str) and isa(_k, "Match") and not rule_name: rule_name = a[0]; a = a[1:]        # Match(to_match, rule_name, ...)
             if isa(_k, "Match"):            # what Arpeggio's Match classes keep: the pattern, its display text, a compile step
                 if _k == "RegExMatch": kw.setdefault("to_match_regex", kw.get("to_match")); kw["to_match"] = kw.get("str_repr") or kw.get("to_match")
                 kw.setdefault("ignore_case", None); kw.setdefault("compile", pyeval.PyFn(lambda: None))
